@@ -39,9 +39,23 @@ def replay(spec):
     single = spec.get("single") and N == 1
     cond = spec.get("cond", "none")
     cnds = [1.0 + 0.5 * n for n in range(N)] if cond == "list" else [1.7] * N if cond == "dict" else [1.0] * N
+    k2s = [0.3] * N
     kw = {}
     if cond == "list":
-        kw["parameter_conditions"] = [{"cnd": v_} for v_ in cnds]
+        # as in the harness: dictionaries with different keys (0 sets cnd, 1 nothing, 2 k2, 3 both)
+        pcl = []
+        for n in range(N):
+            d_ = {}
+            if n % 4 in (0, 3):
+                cnds[n] = 1.5 + 0.5 * n
+                d_["cnd"] = cnds[n]
+            else:
+                cnds[n] = 1.0
+            if n % 4 in (2, 3):
+                k2s[n] = 0.3 + 0.1 * n
+                d_["k2"] = k2s[n]
+            pcl.append(d_)
+        kw["parameter_conditions"] = pcl
     elif cond == "dict":
         kw["parameter_conditions"] = {"cnd": 1.7}
     setup = InferenceSetup(Model=mk(), exp_data=(frames[0] if single else frames), measurements=list(meas), time_column="time",
@@ -58,7 +72,7 @@ def replay(spec):
     for n in range(N):
         M = mk()
         M.set_species(ics[n])
-        M.set_params({"k1": theta, "cnd": cnds[n]})
+        M.set_params({"k1": theta, "cnd": cnds[n], "k2": k2s[n]})
         df = py_simulate_model(frames[n]["time"].to_numpy(), Model=M)
         for m in meas:
             tot += np.sum(np.abs(frames[n][m].to_numpy() - df[m].to_numpy()) ** p)
